@@ -69,7 +69,7 @@ Definition wf_leaf (s : dstore) (h : nat) (lf : dleaf) : bool :=
       end
   | DAnn a => (a <? h) && is_live (st_anns s) a
   | DAnnText a r b e _ =>
-      (a <? h) &&
+      (a <? h) && is_live (st_ress s) r &&
       match ann_range s a with
       | Some (r', pb, pe) => Nat.eqb r r' && (pb <=? b) && (b <=? e) && (e <=? pe)
       | None => false
